@@ -110,6 +110,23 @@ static void op_construct(int kind, long forced_len)
     case C_FD_PIPE: case C_FD_FILE: case C_FP_PIPE: case C_FP_FILE: {
         int ch = kind - C_FD_PIPE;
         chan_t c;
+        if (ch == CH_FD_PIPE && vh_coin(6)) {
+            /* a descriptor that cannot be read (the write end of a pipe): every read() fails.  The constructor must give up -- refuse,
+             * or construct an empty buffer -- within a bounded number of steps and without touching memory outside its buffer. */
+            int pfd[2];
+            if (pipe(pfd) == 0) {
+                vh_op("new_from_fd(write end of a pipe: unreadable) [%s]", RT(rt));
+                if (VH_GUARD_TRY(5)) { o = X_new_from_fd(rt, pfd[1]); vh_guard_end(); }
+                else { close(pfd[0]); close(pfd[1]); vh_fail("new_from_fd:unreadable:non-termination", "new_from_fd on a descriptor whose read() always fails used more than 5 s of CPU time"); }
+                close(pfd[0]); close(pfd[1]);
+                vh_count("unreadable_descriptor", 1);
+                if (o) {
+                    VH_CHECK(spif_mbuff_get_len(o) == 0, "new_from_fd:unreadable:len", "new_from_fd on an unreadable descriptor built a buffer of length %ld", (long) spif_mbuff_get_len(o));
+                    install(i, o, mk(0), 0); after("new_from_fd", &S[i]);
+                }
+                break;
+            }
+        }
         if (forced_len < 0) n = pick_file_len();
         d = gen_bytes(n);
         chan_open(&c, ch, d, n);
